@@ -18,7 +18,7 @@ func init() {
 		Rule: "a case is one begin-sorted chunk list x every provided strategy (Identity, Adjacent, Squash, Compressor(n) for each threshold); the oracle is interval arithmetic on File<<16|Block written independently of the library. " +
 			"Enumerated cases: every begin-sorted list of length <= L (quick 3, thorough 5) over the 21 chunks with Begin<=End on offsets {0,1,2}x{0,1}, thresholds {0,1,2} (complete enumeration of that space; includes empty, nested, touching, duplicate and zero-length chunks). Random cases: lists up to 200 chunks, files up to 2^40, thresholds {0,1,65536,2^32}. " +
 			"A list is non-trivial when it has >= 2 chunks of which two overlap, touch or nest; distinct = distinct lists.",
-		Floor:       map[string]int{"quick": 3000, "thorough": 500000},
+		Floor:       map[string]int{"quick": 3000, "thorough": 300000},
 		Plan:        c17Plan,
 		Run:         c17Run,
 		Exhaustive:  true,
